@@ -156,7 +156,7 @@ def valid_layouts():
 def c12_groups(tier, tag='C12'):
     gs = []
     if tier == 'quick':
-        dec = [(3, 7), (2, 10), (4, 8), (2, 2)]
+        dec = [(3, 7), (2, 10), (4, 8), (2, 2), (1, 8)]
         lem = [(3, 7), (2, 10), (4, 8), (16, 2), (32, 1), (1, 30), (2, 16), (5, 6)]
         wrap = [(3, 7, 1), (2, 10, 1)]
     else:
@@ -240,6 +240,11 @@ def boot_groups(tag):
                         defines={'FFT': fft, 'H_WOKS': None}, cbmc=['--memory-leak-check'], replay=('woks', fft)))
         gs.append(Group('%s.bootstrap%s' % (tag, suf), 'c04_bootstrap.c', 'h_bootstrap', extract=[(f, 'tfhe_bootstrap' + suf)],
                         defines={'FFT': fft, 'H_BOOT': None}, cbmc=['--memory-leak-check']))
+    gs.append(Group(tag + '.LweBootstrappingKeyFFT.init_destroy.bounded', 'c04_bootstrap.c', 'h_b_bkfft',
+                    extract=[('lwebootstrappingkey.cpp', 'LweBootstrappingKeyFFT::LweBootstrappingKeyFFT'), ('lwebootstrappingkey.cpp', 'LweBootstrappingKeyFFT::~LweBootstrappingKeyFFT'),
+                             (BF, 'init_LweBootstrappingKeyFFT'), (BF, 'destroy_LweBootstrappingKeyFFT')],
+                    defines={'FFT': 1, 'H_BKFFT': None}, unwind=10, bounded=True, cbmc=['--memory-leak-check'],
+                    instance={'n': 2, 'N': 2, 'k': 2, 't': 2, 'basebit': 1}))
     return gs
 
 
@@ -300,7 +305,7 @@ def truth_groups(tag):
 
 
 def c01_groups(tier, tag='C01'):
-    gs = gate_groups(tag, tier, aliases=(0,)) + truth_groups(tag)
+    gs = gate_groups(tag, tier) + truth_groups(tag)      # every gate under every aliasing pattern
     # the contracts of the linear operations the gates are proved against, enforced on their real bodies
     gs += [g for g in lwe_groups(tag + '.dep', tier) if not g.bounded]
     return gs
@@ -315,8 +320,7 @@ def c19_groups(tier, tag='C19'):
           ('lweparams.cpp', 'LweParams::LweParams'), ('tlwe.cpp', 'TLweParams::TLweParams'), ('tgsw.cpp', 'TGswParams::TGswParams')]
     for T in ['LweParams', 'TLweParams', 'TGswParams']:
         ex += [(AG, 'alloc_' + T), (AG, 'init_' + T), (AG, 'new_' + T)]
-    ex += [(GB, 'default_80bit_gate_bootstrapping_parameters'), (GB, 'default_128bit_gate_bootstrapping_parameters'),
-           (GB, 'new_default_gate_bootstrapping_parameters')]
+    ex += [(GB, 'new_default_gate_bootstrapping_parameters', 'closure', 'skip=die_dramatically')]   # + whatever static helpers it calls in that file
     return [Group(tag + '.selector', 'c19_params.c', 'h_params', extract=ex, unwind=5, timeout=900, replay='params')]
 
 
@@ -386,7 +390,7 @@ def sel_c15(g, o):
 def sel_c16(g, o):
     if o['cls'] in SAFETY_CLASSES:
         return True
-    if re.search(r'spec sanity|released|freed|scratch|holds n entries|in range|writable|OOB|size', o['desc']):
+    if re.search(r'spec sanity|released|releases|freed|scratch|holds n entries|in range|writable|OOB|size|owns|life cycle', o['desc']):
         return True
     return False
 
@@ -454,6 +458,41 @@ def c16_groups(tier):
                         extract=[(MU, 'torusPolynomialMultNaive_plain_aux'), (MU, 'Karatsuba_aux'), (MU, fn)],
                         defines={'H_KARA': None, 'VERIF_N': 16, 'KMODE': km}, unwind=34, bounded=True, timeout=1800, backend='z3', cbmc=['--memory-leak-check']))
     return gs
+
+
+S_ = 'sampler'
+ALPHAS = ['0x1p-15', '0x1p-25', '2.44e-5', '7.18e-9', '0.0']
+
+
+def enc_groups(tag):
+    gs = [Group(tag + '.gaussian32', 'c03_encrypt.c', 'h_gaussian32', extract=[(NF, 'gaussian32', S_)], defines={'H_GAUSSIAN': None}),
+          Group(tag + '.lweKeyGen', 'c03_encrypt.c', 'h_lweKeyGen', extract=[(LF, 'lweKeyGen', S_)], loops=True, defines={'H_KEYGEN': None}),
+          Group(tag + '.gate_api_wiring', 'c03_encrypt.c', 'h_decrypt_wiring',
+                extract=[(LF, 'lweSymDecrypt'), (NF, 'modSwitchToTorus32'), (GB, 'bootsSymEncrypt'), (GB, 'bootsSymDecrypt')], defines={'H_DECRYPT': None})]
+    for A in ALPHAS:
+        gs.append(Group('%s.lweSymEncrypt.alpha=%s' % (tag, A), 'c03_encrypt.c', 'h_lweSymEncrypt', extract=[(LF, 'lweSymEncrypt', S_)], loops=True,
+                        defines={'H_ENCRYPT': None, 'VERIF_ALPHA': A}, instance={'alpha': A}))
+    gs.append(Group(tag + '.lweSymEncryptWithExternalNoise', 'c03_encrypt.c', 'h_lweSymEncrypt', extract=[(LF, 'lweSymEncryptWithExternalNoise', S_)],
+                    loops=True, defines={'H_ENCRYPT': None, 'EXTERNAL_NOISE': None, 'VERIF_ALPHA': '0x1p-15'}))
+    return gs
+
+
+def c03_groups(tier, tag='C03'):
+    gs = [g for g in enc_groups(tag) if 'KeyGen' not in g.name]
+    for n in ([1, 2, 4, 8] if tier == 'quick' else [1, 2, 3, 4, 5, 8, 16, 32]):
+        gs.append(Group('%s.pairing.bounded.n=%d' % (tag, n), 'c03_encrypt.c', 'h_b_pairing', extract=[(LF, 'lweSymEncrypt', S_), (LF, 'lwePhase')],
+                        defines={'H_PAIRING': None, 'VERIF_BN': n}, unwind=n + 2, bounded=True, backend='z3', timeout=1200, instance={'n': n}))
+    Ms = [2, 3, 4, 5, 7, 8, 16, 1000, 1024, 2048] if tier == 'quick' else sorted(set(C13_LISTED[:-1] + list(range(2, 65)) + [100, 255, 256, 257, 4095, 4097, 32767]))
+    for M in Ms:
+        gs.append(Group('%s.decode.M=%d' % (tag, M), 'c03_encrypt.c', 'h_decode', extract=[(NF, 'modSwitchToTorus32'), (NF, 'approxPhase')],
+                        defines={'H_DECODE': None, 'VERIF_MSIZE': '%du' % M}, instance={'Msize': M}))
+    # noiseless trivial samples: all-zero mask, b = mu (C14 contract enforced on the real body)
+    gs.append(Group(tag + '.dep.lweNoiselessTrivial', 'c14_lwe.c', 'h_lweNoiselessTrivial', extract=[(LF, 'lweNoiselessTrivial')], enforce='lweNoiselessTrivial', loops=True))
+    return gs
+
+
+def c07_groups(tier, tag='C07'):
+    return enc_groups(tag)
 
 
 PROPS = {
@@ -591,6 +630,35 @@ PROPS = {
             'thread-exit destructors of the thread_local FFT processors, the assembly kernels, serialization, garbage collector (std::vector): not reachable by the C front end',
             'key-switch table: bounded in n (see C08)',
             'FFT-domain objects (LagrangeHalfCPolynomial, TGswSampleFFT, LweBootstrappingKeyFFT construction): not under contract',
+        ],
+        'trusted': [],
+    },
+    'C03': {
+        'groups': c03_groups,
+        'level': 'proof',
+        'explanation': 'LWE and gate API: decoding grid (every phase within the decoding radius of mu/Msize decodes to it, per enumerated Msize, all mu and all '
+                       'errors symbolic), lweSymDecrypt = approxPhase(lwePhase) wiring, gate encode/decode wiring, encryption structure (one centred gaussian '
+                       'of the requested stdev, uniform mask, variance annotation) for every n; the pairing phase(encrypt(m)) = m + e for any integer key is a '
+                       'bounded stand-in in n. TLWE / TGSW decryption is not claimed.',
+        'assumptions': STD_ASSUME + [
+            'pairing of the encryption loop and the phase loop (sum a_i*s_i): bounded stand-in, n in {1,2,4,8}(..32), all coefficient / key / error values symbolic (z3)',
+            'TLWE and TGSW encryption/decryption go through the FFT product (assumed exact negacyclic multiply-accumulate): not claimed here',
+            'the samplers are declared-only draws (assumed contract of libstdc++); the gaussian error is an arbitrary finite double, its size is not bounded by alpha here',
+            'Msize enumerated; noise bound "Msize*alpha <= 1/20" enters only as the decoding radius |e| < 1/(2 Msize) - 2 units',
+        ],
+        'trusted': [],
+    },
+    'C07': {
+        'groups': c07_groups,
+        'level': 'proof',
+        'explanation': 'Noise-parameter and draw-count plumbing of LWE encryption, gate encryption and LWE key generation for every n: the configured '
+                       'standard deviation reaches the sampler unchanged and centred, exactly once per ciphertext; one uniform draw per mask coefficient; '
+                       'key coefficients are draws from {0,1}; fresh gate ciphertexts use the input-key noise level. The distributional statement itself '
+                       '(moments, uniformity, independence, seeding reproducibility) is statistical and NOT decided.',
+        'assumptions': STD_ASSUME + [
+            'libstdc++ normal_distribution / uniform_int_distribution / default_random_engine: assumed contract (declared-only draws)',
+            'no moment, tail, balance, independence or re-seeding claim is decided; TLWE/TGSW rows, bootstrapping-key and key-switching-key rows are not under contract yet',
+            'the variance annotation alpha^2 is proved for the enumerated alphas (IEEE product, see DESIGN 8.2)',
         ],
         'trusted': [],
     },
